@@ -69,10 +69,11 @@ PROPS = {
         "trusted": MODEL_TRUST,
         "level_text": "Proof: the strict reference decoder is the operation-tree decoder over list windows (a chunk is a sub-list); the "
                       "refinement theorem shows, for every program, that the real region arithmetic returns what the reference returns; "
-                      "arrays are produced only from exactly N elements. The implementation is compared with the reference on every tampered "
-                      "and raw input of the run.",
-        "level_note": "The reference's fidelity to the format is by reading (DESIGN 4.5). Abstract panics (region escaping its window) are excluded "
-                      "for valid encodings by theorem and for other inputs by observation (none occurs).",
+                      "arrays are produced only from exactly N elements. For decodable environments the reference never panics (C05), so "
+                      "whatever the real region arithmetic accepts the reference decodes to the same value, and errors agree exactly "
+                      "(decode_honest_total, errors_agree_total). The implementation is compared with the reference on every tampered and "
+                      "raw input of the run.",
+        "level_note": "The reference's fidelity to the format is by reading (DESIGN 4.5).",
     },
     "C07": {
         "families": [{"name": "ty"}, {"name": "decl"}, {"name": "hist"}],
@@ -81,7 +82,8 @@ PROPS = {
                 "all (writer, reader) version pairs of the generated histories with stored version >= 1 (and version 0 without removals)",
         "trusted": MODEL_TRUST,
         "level_text": "Proof: the continuation t in the round-trip theorems is arbitrary, so decoding consumes exactly the encoding "
-                      "(consumes_exactly, sequential, and the same for the faithful context).",
+                      "(consumes_exactly, sequential, and the same for the faithful context); when another version of the definition reads "
+                      "the record, exactly the record is consumed whenever the data carries a header (C03.evolution_outcome_frame).",
         "level_note": V0_NOTE,
     },
     "C08": {
@@ -90,10 +92,13 @@ PROPS = {
         "rule": "every strict prefix (all cut points up to 96 bytes, sampled beyond) of every encoding generated by ty/decl, and of every "
                 "cross-version encoding of hist with stored version >= 1, must be Err on the implementation",
         "trusted": MODEL_TRUST,
-        "partial": "cross-version reads (data of an older definition): the statement about prefixes is checked by correspondence only",
+        "partial": "cross-version reads (a prefix of data written by another version): correspondence only",
         "level_text": "Proof: for every decoder program a successful run is unchanged by appending data (run_extends, induction on the "
                       "operation tree) and cursors stay in their windows (run_AllWF); with consumption this gives: no strict prefix of an "
-                      "encoding decodes to a value (prefix_rejected).",
+                      "encoding decodes to a value (prefix_rejected); more fuel never changes a successful decoding (dec_fuel_mono) and "
+                      "the decoder never panics (C05), so with the driver's own budget every strict prefix is exactly an error — "
+                      "not a value, not a panic — through the reference decoder and through the faithful context (prefix_is_error, "
+                      "prefix_is_error_faithful).",
         "level_note": V0_NOTE,
     },
 
@@ -175,8 +180,8 @@ PROPS = {
                 "differ): bytes and decoded values against the model, constructor indices 0..7, 9, 127, 128, u32::MAX against every "
                 "declaration, three extension pairs cross-read both ways",
         "trusted": MODEL_TRUST,
-        "level_text": "Proof: the wire index is the declaration position (unsorted) / a rearrangement of it (sorted; order checked by evaluation "
-                      "and correspondence); an enum value is 0, uv(index), the variant's record; an unknown index is InvalidConstructorId, a "
+        "level_text": "Proof: the wire index is the declaration position (unsorted) / a rearrangement of it that is ascending in the constructor names "
+                      "(sorted_ctors_ascending; that Rust's String order is this order is checked by correspondence); an enum value is 0, uv(index), the variant's record; an unknown index is InvalidConstructorId, a "
                       "transient one DeserializingTransientConstructor / SerializingTransientConstructor; data written before an extension "
                       "decodes to the same constructor afterwards (enum_extension).",
         "level_note": V0_NOTE,
@@ -327,8 +332,7 @@ PROPS = {
                       "sink/source pairs are run against each other on every check (exhaustively over 2^32 in the thorough tier).",
         "level_note": "Trusted: Lean kernel; bv_decide's native axioms (Lean.ofReduceBool) in the bit-level theorems only; the transcription "
                       "of the Rust shifts/masks is by hand and tied to the code by the varint family; the BitVec and Nat writers are proved equal byte for byte "
-                      "(layers_agree_u32 / layers_agree_i32); the readers are tied on encoder output through the two round trips and on other "
-                      "bytes by the run.",
+                      "(layers_agree_u32 / layers_agree_i32) and the two readers equal on every byte string (layers_agree_read).",
         "technique": "Lean 4 proof (bv_decide + omega) over a bit-exact model, differential check vs the real sinks/sources",
     },
 }
